@@ -1,13 +1,588 @@
-"""Engine K driver (filled in later)."""
+"""Engine K driver: runs the Kani proof harnesses of /verif/kani against the CURRENT /repo tree.
+
+Contract (used by lib/check.py):
+    warm(log)                                  build the harness crate once (exit 2 on failure)
+    run(prop, tier, seed, known, log, only)    -> {"coverage", "violations", "known_hits", "nonrepro"}
+    replay(d, log)                             re-run a stored counterexample natively; 1 = reproduces
+
+How a run works
+  1. the harness table is parsed from /verif/kani/src/*.rs: every `#[kani::proof] fn cNN_[qt]_*` with its
+     `/// K: key=value | key=value` metadata lines (fns, inst, bound, asserts, cap, panics) and attributes
+     (unwind, should_panic). `cNN_q_*` = quick + thorough tier, `cNN_t_*` = thorough only.
+  2. `cargo kani --only-codegen` builds the crate against the path dependency (cargo fingerprints the
+     vek sources, so edits in /repo are always rebuilt; no verdict is cached anywhere).
+  3. one `cargo kani -j N --output-format terse --exact --harness ...` invocation decides the selected
+     harnesses in parallel (CBMC + cadical), with a per-harness timeout; a watchdog kills a cbmc that
+     outgrows the memory budget (=> that harness is undecided).
+  4. per harness verdict:
+       passed     VERIFICATION:- SUCCESSFUL, every cover property SATISFIED, and (should_panic harnesses)
+                  every failed check matches the harness's `panics=` regex
+       vacuous    SUCCESSFUL but a cover property is unsatisfiable/unreachable or there is none
+       failed     a property check failed (for should_panic: a failed check outside `panics=`,
+                  typically the harness's own "K-NOPANIC" marker, or no panic at all)
+       undecided  timeout, out of memory, CBMC error, missing output: never counted as a pass
+  5. a failed harness is re-run alone with concrete playback; the generated unit tests are appended to a
+     scratch copy of the crate and executed natively with `cargo kani playback` (dev profile; and a
+     release-like profile for information). Only a natively failing test is reported as a violation;
+     otherwise the entry goes to "nonrepro" (check exits 2).
+Python 3.11 stdlib only.
+"""
+import json
+import os
+import re
+import shutil
+import signal
+import subprocess
+import sys
+import threading
+import time
+
+VERIF = os.path.dirname(os.path.dirname(os.path.abspath(__file__)))
+REPO = os.environ.get("VERIF_REPO", "/repo")
+BUILD = os.path.join(VERIF, ".build")
+KANI_DIR = os.path.join(VERIF, "kani")
+JOBS = int(os.environ.get("VERIF_JOBS", "16"))
+RSS_LIMIT_GB = float(os.environ.get("VERIF_KANI_RSS_GB", "12"))
+MIN_AVAIL_GB = float(os.environ.get("VERIF_KANI_MIN_AVAIL_GB", "5"))
+DEFAULT_CAP = {"quick": 300, "thorough": 900}
+KANI_VERSION = "kani 0.68.0 / CBMC 6.11.0 (cadical)"
+
+HARNESS_RE = re.compile(
+    r"((?:[ \t]*///[^\n]*\n)*)[ \t]*#\[kani::proof\][ \t]*\n((?:[ \t]*#\[[^\n]*\][ \t]*\n)*)[ \t]*(?:pub )?fn\s+(c(\d\d)_([qt])_\w+)\s*\(")
+
+
+# ------------------------------------------------------------------------------------------------
+# harness table
+# ------------------------------------------------------------------------------------------------
+def harness_table(crate_dir):
+    """Parse the harness sources. Returns a list of dicts in source order."""
+    out = []
+    src = os.path.join(crate_dir, "src")
+    for fn in sorted(os.listdir(src)):
+        if not fn.endswith(".rs"):
+            continue
+        text = open(os.path.join(src, fn)).read()
+        module = fn[:-3]
+        declared = set(re.findall(r"\bfn\s+(c\d\d_[qt]_\w+)\s*\(", text))
+        seen = set()
+        for m in HARNESS_RE.finditer(text):
+            doc, attrs, name, nn, tier = m.groups()
+            meta = {}
+            klines = [l.strip()[3:].strip() for l in doc.splitlines() if l.strip().startswith("/// K:")]
+            for part in " | ".join(l[2:].strip() for l in klines).split(" | "):
+                if "=" in part:
+                    k, v = part.split("=", 1)
+                    meta[k.strip()] = v.strip()
+            uw = re.search(r"kani::unwind\((\d+)\)", attrs)
+            h = {
+                "name": name,
+                "module": module,
+                "full": "%s::%s" % (module, name),
+                "prop": "C" + nn,
+                "tier": "quick" if tier == "q" else "thorough",
+                "unwind": int(uw.group(1)) if uw else None,
+                "should_panic": "kani::should_panic" in attrs,
+                "functions": [f.strip() for f in meta.get("fns", "").split(",") if f.strip()],
+                "inst": meta.get("inst", ""),
+                "bound": meta.get("bound", ""),
+                "asserts": meta.get("asserts", ""),
+                "cap": int(meta["cap"]) if meta.get("cap", "").isdigit() else None,
+                "panics": meta.get("panics"),
+            }
+            if not h["functions"] or not h["asserts"]:
+                raise SystemExit("kani_driver: harness %s has no `/// K:` metadata (fns=, asserts=)" % name)
+            if h["should_panic"] and not h["panics"]:
+                raise SystemExit("kani_driver: should_panic harness %s has no `panics=` regex" % name)
+            out.append(h)
+            seen.add(name)
+        missing = declared - seen
+        if module not in ("lib",) and missing:
+            raise SystemExit("kani_driver: functions named like harnesses but not parsed as such in %s: %s" % (fn, sorted(missing)))
+    names = [h["name"] for h in out]
+    dup = {n for n in names if names.count(n) > 1}
+    if dup:
+        raise SystemExit("kani_driver: duplicate harness names %s" % sorted(dup))
+    return out
+
+
+# ------------------------------------------------------------------------------------------------
+# build
+# ------------------------------------------------------------------------------------------------
+def _env(extra=None):
+    env = dict(os.environ)
+    env["CARGO_NET_OFFLINE"] = "true"
+    env.pop("RUSTC_WRAPPER", None)
+    env.pop("CARGO_TARGET_DIR", None)
+    env.pop("RUSTFLAGS", None)
+    if extra:
+        env.update(extra)
+    return env
+
+
+def _copy_crate(dst, repo):
+    if os.path.exists(dst):
+        shutil.rmtree(dst)
+    shutil.copytree(KANI_DIR, dst, ignore=shutil.ignore_patterns("target"))
+    if repo != "/repo":
+        toml = os.path.join(dst, "Cargo.toml")
+        open(toml, "w").write(open(toml).read().replace('path = "/repo"', 'path = "%s"' % repo))
+
+
+def _crate(repo=None):
+    """(crate dir, target dir) for the tree under test."""
+    repo = repo or REPO
+    if repo == "/repo":
+        return KANI_DIR, os.path.join(BUILD, "kani")
+    alt = os.path.join(BUILD, "kani-alt")
+    _copy_crate(os.path.join(alt, "crate"), repo)
+    return os.path.join(alt, "crate"), os.path.join(alt, "target")
+
+
+def _tail(text, n=60):
+    return "\n".join(text.splitlines()[-n:])
+
+
+def _build(crate_dir, target_dir, log):
+    t0 = time.time()
+    if not os.path.exists(os.path.join(crate_dir, "Cargo.lock")) and os.path.exists(os.path.join(REPO, "Cargo.lock")):
+        shutil.copy(os.path.join(REPO, "Cargo.lock"), os.path.join(crate_dir, "Cargo.lock"))
+    p = subprocess.run(["cargo", "kani", "--only-codegen", "--target-dir", target_dir], cwd=crate_dir, env=_env(),
+                       stdout=subprocess.PIPE, stderr=subprocess.STDOUT, text=True)
+    if p.returncode != 0:
+        errs = [l for l in p.stdout.splitlines() if l.startswith("error")]
+        log(_tail(p.stdout, 80))
+        log("BUILD-FAILURE engine=kani (harness crate %s against vek at %s): %s" % (crate_dir, REPO, "; ".join(errs[:5])))
+        sys.exit(2)
+    return time.time() - t0
 
 
 def warm(log):
-    pass
+    crate_dir, target_dir = _crate()
+    table = harness_table(crate_dir)
+    dt = _build(crate_dir, target_dir, log)
+    log("built kani harness crate (%d harnesses) in %.1fs" % (len(table), dt))
+
+
+# ------------------------------------------------------------------------------------------------
+# memory watchdog
+# ------------------------------------------------------------------------------------------------
+class Watchdog(threading.Thread):
+    """Kills the largest cbmc when one outgrows the budget or the machine runs out of memory."""
+
+    def __init__(self, log):
+        super().__init__(daemon=True)
+        self.log = log
+        self.stop = threading.Event()
+        self.killed = []
+        self.peak_rss_gb = 0.0
+
+    @staticmethod
+    def _cbmcs():
+        res = []
+        for pid in os.listdir("/proc"):
+            if not pid.isdigit():
+                continue
+            try:
+                if open("/proc/%s/comm" % pid).read().strip() != "cbmc":
+                    continue
+                rss_pages = int(open("/proc/%s/statm" % pid).read().split()[1])
+                cmd = open("/proc/%s/cmdline" % pid).read().replace("\0", " ")
+            except (OSError, ValueError, IndexError):
+                continue
+            res.append((rss_pages * os.sysconf("SC_PAGE_SIZE") / 2**30, int(pid), cmd))
+        return res
+
+    @staticmethod
+    def _avail_gb():
+        for l in open("/proc/meminfo"):
+            if l.startswith("MemAvailable:"):
+                return int(l.split()[1]) / 2**20
+        return 1e9
+
+    def run(self):
+        while not self.stop.wait(3.0):
+            procs = [p for p in self._cbmcs() if "vek_kani" in p[2]]
+            if not procs:
+                continue
+            procs.sort(reverse=True)
+            self.peak_rss_gb = max(self.peak_rss_gb, procs[0][0])
+            if procs[0][0] > RSS_LIMIT_GB or self._avail_gb() < MIN_AVAIL_GB:
+                rss, pid, cmd = procs[0]
+                m = re.search(r"(c\d\d_[qt]_\w+?)(?:\.out|\s|$)", cmd)
+                self.killed.append(m.group(1) if m else str(pid))
+                self.log("  kani watchdog: killing cbmc pid %d (%.1f GB, %s): memory budget" % (pid, rss, self.killed[-1]))
+                try:
+                    os.kill(pid, signal.SIGKILL)
+                except OSError:
+                    pass
+
+
+# ------------------------------------------------------------------------------------------------
+# running and parsing
+# ------------------------------------------------------------------------------------------------
+def _run_kani(crate_dir, target_dir, harnesses, timeout_s, jobs, logfile, log, extra=()):
+    cmd = ["cargo", "kani", "--target-dir", target_dir, "--output-format", "terse", "-Z", "unstable-options",
+           "--harness-timeout", "%ds" % timeout_s, "--exact"]
+    if jobs > 1:
+        cmd += ["-j", str(jobs)]
+    cmd += list(extra)
+    for h in harnesses:
+        cmd += ["--harness", h["full"]]
+    os.makedirs(os.path.dirname(logfile), exist_ok=True)
+    wd = Watchdog(log)
+    wd.start()
+    rounds = (len(harnesses) + max(1, jobs) - 1) // max(1, jobs)
+    overall = timeout_s * rounds + 600
+    with open(logfile, "w") as f:
+        p = subprocess.Popen(cmd, cwd=crate_dir, env=_env(), stdout=f, stderr=subprocess.STDOUT, start_new_session=True)
+        try:
+            p.wait(timeout=overall)
+        except subprocess.TimeoutExpired:
+            log("  kani: overall cap of %ds hit; stopping" % overall)
+            try:
+                os.killpg(p.pid, signal.SIGKILL)
+            except OSError:
+                pass
+            p.wait()
+    wd.stop.set()
+    return open(logfile, errors="replace").read(), wd
+
+
+BLOCK_START = re.compile(r"^(?:Thread (\d+): )?(.*)$")
+
+
+def parse_terse(text):
+    """{full harness name: {"verdict", "checks", "failed", "covers", "covers_sat", "failed_checks", "time_s", "raw"}}"""
+    results = {}
+    current = {}  # thread id -> harness
+    cur_thread = None
+    blocks = {}  # harness -> [lines]
+    for line in text.splitlines():
+        m = re.match(r"^Thread (\d+): (.*)$", line)
+        if m:
+            tid, rest = m.group(1), m.group(2)
+            cur_thread = tid
+            mm = re.match(r"Checking harness (\S+?)\.\.\.$", rest.strip())
+            if mm:
+                current[tid] = mm.group(1)
+                blocks.setdefault(mm.group(1), [])
+                cur_thread = None
+            continue
+        mm = re.match(r"^Checking harness (\S+?)\.\.\.$", line.strip())
+        if mm:  # sequential mode (no thread prefix)
+            current["seq"] = mm.group(1)
+            blocks.setdefault(mm.group(1), [])
+            cur_thread = "seq"
+            continue
+        if line.startswith("Manual Harness Summary:") or line.startswith("Complete - "):
+            cur_thread = None
+            continue
+        if cur_thread is not None and cur_thread in current:
+            blocks[current[cur_thread]].append(line)
+    for name, lines in blocks.items():
+        raw = "\n".join(lines)
+        r = {"verdict": None, "checks": 0, "failed": 0, "covers": 0, "covers_sat": 0, "failed_checks": [], "time_s": None,
+             "raw": raw, "cbmc_failed": False}
+        m = re.search(r"\*\* (\d+) of (\d+) failed", raw)
+        if m:
+            r["failed"], r["checks"] = int(m.group(1)), int(m.group(2))
+        m = re.search(r"\*\* (\d+) of (\d+) cover properties satisfied", raw)
+        if m:
+            r["covers_sat"], r["covers"] = int(m.group(1)), int(m.group(2))
+        r["failed_checks"] = [d.strip() for d in re.findall(r"^Failed Checks: (.*)$", raw, re.M)]
+        m = re.search(r"^VERIFICATION:- (SUCCESSFUL|FAILED)(.*)$", raw, re.M)
+        if m:
+            r["verdict"] = m.group(1)
+        m = re.search(r"^Verification Time: ([0-9.]+)s", raw, re.M)
+        if m:
+            r["time_s"] = float(m.group(1))
+        if re.search(r"CBMC failed|CBMC timed out|out of memory|Status: ERROR|std::bad_alloc", raw) or "VERIFICATION RESULT:" not in raw:
+            r["cbmc_failed"] = True
+        results[name] = r
+    return results
+
+
+def classify(h, r):
+    """-> (status, unexpected_failed_checks, note)"""
+    if r is None:
+        return "undecided", [], "no output for this harness"
+    if r["cbmc_failed"] or r["verdict"] is None:
+        note = "timeout" if "timed out" in r["raw"] else "CBMC did not return a verdict (killed / out of memory / error)"
+        return "undecided", [], note
+    fails = r["failed_checks"]
+    if h["should_panic"]:
+        rx = re.compile(h["panics"])
+        bad = [d for d in fails if not rx.fullmatch(d)]
+        if bad:
+            return "failed", bad, "failed check outside the expected panic set"
+        if not fails:
+            return "failed", ["no panic occurred in a should_panic harness"], "no panic"
+        if r["verdict"] != "SUCCESSFUL":
+            return "undecided", [], "should_panic harness not SUCCESSFUL without a listed failure"
+    else:
+        if r["verdict"] == "FAILED":
+            if not fails:
+                return "undecided", [], "FAILED without a failed check (undetermined)"
+            return "failed", fails, ""
+        if r["failed"]:
+            return "failed", fails or ["unlisted failed check"], ""
+    if r["covers"] == 0 or r["covers_sat"] != r["covers"]:
+        return "vacuous", [], "%d of %d cover properties satisfied" % (r["covers_sat"], r["covers"])
+    return "passed", [], ""
+
+
+# ------------------------------------------------------------------------------------------------
+# counterexamples: concrete playback + native run
+# ------------------------------------------------------------------------------------------------
+PLAYBACK_RE = re.compile(r"Concrete playback unit test for `([^`]+)`:\n```\n(.*?)\n```", re.S)
+
+
+def parse_playback(text):
+    tests = []
+    for full, src in PLAYBACK_RE.findall(text):
+        m = re.search(r"/// Check for `(\w+)`: \"(.*)\"", src)
+        fn = re.search(r"fn (kani_concrete_playback_\w+)\(", src)
+        vals = [{"comment": c.strip(), "bytes": [int(x) for x in b.replace(" ", "").split(",") if x]}
+                for c, b in re.findall(r"//([^\n]*)\n\s*vec!\[([^\]]*)\]", src)]
+        tests.append({"harness": full, "kind": m.group(1) if m else "", "check": m.group(2) if m else "",
+                      "test_fn": fn.group(1) if fn else "", "source": src, "values": vals})
+    return tests
+
+
+def _native_playback(module, tests, profile, log, repo=None):
+    """Append the playback tests to a scratch copy of the crate and run them natively.
+    -> {test_fn: {"outcome": "failed"|"ok"|"missing", "message": str}}"""
+    scratch = os.path.join(BUILD, "kani-replay")
+    crate = os.path.join(scratch, "crate")
+    _copy_crate(crate, repo or REPO)
+    path = os.path.join(crate, "src", module + ".rs")
+    with open(path, "a") as f:
+        f.write("\n// ---- concrete playback tests appended by kani_driver ----\n")
+        for t in tests:
+            f.write(t["source"] + "\n")
+    extra = {"CARGO_TARGET_DIR": os.path.join(scratch, "target-" + profile)}
+    if profile == "release":
+        extra.update({"CARGO_PROFILE_DEV_OPT_LEVEL": "3", "CARGO_PROFILE_DEV_OVERFLOW_CHECKS": "false",
+                      "CARGO_PROFILE_DEV_DEBUG_ASSERTIONS": "false",
+                      "CARGO_PROFILE_TEST_OPT_LEVEL": "3", "CARGO_PROFILE_TEST_OVERFLOW_CHECKS": "false",
+                      "CARGO_PROFILE_TEST_DEBUG_ASSERTIONS": "false"})
+    env = _env(extra)
+    p = subprocess.run(["cargo", "kani", "playback", "-Z", "concrete-playback", "--", "kani_concrete_playback", "--test-threads=1"],
+                       cwd=crate, env=env, stdout=subprocess.PIPE, stderr=subprocess.STDOUT, text=True)
+    out = p.stdout
+    res = {}
+    for t in tests:
+        m = re.search(r"^test \S*%s \.\.\. (\w+)" % re.escape(t["test_fn"]), out, re.M)
+        outcome = "missing"
+        if m:
+            outcome = "failed" if m.group(1) == "FAILED" else "ok"
+        msg = ""
+        mm = re.search(r"---- \S*%s stdout ----\n(.*?)(?=\n---- |\nfailures:|\Z)" % re.escape(t["test_fn"]), out, re.S)
+        if mm:
+            msg = mm.group(1).strip()[:1500]
+        res[t["test_fn"]] = {"outcome": outcome, "message": msg}
+    if all(v["outcome"] == "missing" for v in res.values()):
+        log("  kani playback (%s) produced no test results:\n%s" % (profile, _tail(out, 40)))
+    return res
+
+
+def _counterexamples(h, bad_checks, crate_dir, target_dir, cap, log):
+    """Re-run one failed harness with concrete playback and execute the tests natively."""
+    logfile = os.path.join(BUILD, "logs", "kani-playback-%s.log" % h["name"])
+    text, _ = _run_kani(crate_dir, target_dir, [h], cap, 1, logfile, log,
+                        extra=["-Z", "concrete-playback", "--concrete-playback=print"])
+    tests = [t for t in parse_playback(text) if t["kind"] != "cover"]
+    if h["should_panic"]:
+        tests = [t for t in tests if any(t["check"] in b or b in t["check"] for b in bad_checks)]
+    if not tests:
+        return [], {}, {}
+    dev = _native_playback(h["module"], tests, "dev", log)
+    rel = {}
+    if os.environ.get("VERIF_KANI_REPLAY_RELEASE", "1") == "1":
+        try:
+            rel = _native_playback(h["module"], tests, "release", log)
+        except Exception as e:  # informational only
+            log("  kani playback (release-like) skipped: %s" % e)
+    return tests, dev, rel
+
+
+def _reproduces(h, test, native):
+    r = native.get(test["test_fn"], {})
+    if r.get("outcome") != "failed":
+        return False
+    if h["should_panic"]:
+        # the expected panic also fails the native test: only the harness's own marker counts
+        return "K-NOPANIC" in r.get("message", "") or test["check"] in r.get("message", "")
+    return True
+
+
+# ------------------------------------------------------------------------------------------------
+# entry points
+# ------------------------------------------------------------------------------------------------
+def select(table, prop, tier, only=None):
+    hs = [h for h in table if h["prop"] == prop and (tier == "thorough" or h["tier"] == "quick")]
+    if only:
+        hs = [h for h in hs if only in h["name"]]
+    return hs
 
 
 def run(prop, tier, seed, known, log, only=None):
-    return {"coverage": {"harnesses_run": 0, "harnesses_passed": 0, "checks_total": 0, "undecided": 0, "samples": []}, "violations": [], "known_hits": [], "nonrepro": []}
+    t_start = time.time()
+    crate_dir, target_dir = _crate()
+    table = harness_table(crate_dir)
+    hs = select(table, prop, tier, only)
+    empty_cov = {"harnesses_run": 0, "harnesses_passed": 0, "checks_total": 0, "undecided": 0, "harness_results": [],
+                 "functions_encoded": [], "bounds": {}, "samples": [], "solver_time_s": 0.0}
+    if not hs:
+        log("kani: no harness for %s (tier %s%s)" % (prop, tier, ", only=%s" % only if only else ""))
+        return {"coverage": empty_cov, "violations": [], "known_hits": [], "nonrepro": []}
+    build_s = 0.0  # cargo kani re-runs codegen on every invocation anyway (~15-25 s): no separate build step
+    caps = [h["cap"] or DEFAULT_CAP[tier] for h in hs]
+    if tier == "quick":
+        caps = [min(c, 600) for c in caps]
+    cap = max(caps)
+    jobs = max(1, min(JOBS, len(hs)))
+    logfile = os.path.join(BUILD, "logs", "kani-%s-%s.log" % (prop, tier))
+    log("kani: %s tier=%s: %d harnesses, %d jobs, per-harness cap %ds" % (prop, tier, len(hs), jobs, cap))
+    text, wd = _run_kani(crate_dir, target_dir, hs, cap, jobs, logfile, log)
+    parsed = parse_terse(text)
+    if not parsed:
+        errs = [l for l in text.splitlines() if l.startswith("error")]
+        log(_tail(text, 80))
+        log("BUILD-FAILURE engine=kani (harness crate %s against vek at %s; no harness was started; log %s): %s" % (crate_dir, REPO, logfile, "; ".join(errs[:5])))
+        sys.exit(2)
+
+    results, violations, known_hits, nonrepro = [], [], [], []
+    solver_s = 0.0
+    for h in hs:
+        r = parsed.get(h["full"])
+        status, bad, note = classify(h, r)
+        entry = {"name": h["name"], "status": status, "time_s": round(r["time_s"], 2) if r and r["time_s"] is not None else None,
+                 "unwind": h["unwind"], "checks": r["checks"] if r else 0, "covers": "%d/%d" % (r["covers_sat"], r["covers"]) if r else "0/0",
+                 "functions": h["functions"], "inst": h["inst"], "bound": h["bound"], "tier": h["tier"]}
+        if note:
+            entry["note"] = note
+        if r and r["time_s"]:
+            solver_s += r["time_s"]
+        if status == "failed":
+            entry["failed_checks"] = bad
+        results.append(entry)
+        if status == "undecided":
+            log("  UNDECIDED kani:%s (%s)" % (h["name"], note))
+        elif status == "vacuous":
+            log("  VACUOUS kani:%s (%s) — reachability witness not satisfied; nothing is claimed" % (h["name"], note))
+            nonrepro.append({"key": "kani:%s::vacuous" % h["name"], "model": {"kind": "vacuous", "note": note}})
+
+    # ---- counterexamples of failed harnesses: replay natively before reporting ----
+    for h, e in zip(hs, results):
+        if e["status"] != "failed":
+            continue
+        bad = list(dict.fromkeys(e["failed_checks"]))
+        log("  kani:%s FAILED (%s); extracting and replaying the counterexample natively" % (h["name"], "; ".join(bad)[:300]))
+        tests, dev, rel = _counterexamples(h, bad, crate_dir, target_dir, h["cap"] or DEFAULT_CAP[tier], log)
+        repro_tests = [t for t in tests if _reproduces(h, t, dev)]
+        replay_file = os.path.join(VERIF, "replays", prop, h["name"] + ".json")
+        d = {
+            "property": prop, "engine": "kani", "harness": h["name"], "module": h["module"], "should_panic": h["should_panic"],
+            "panics": h["panics"], "failed_checks": bad, "instantiation": h["inst"], "asserts": h["asserts"],
+            "playback_test_source": "\n".join(t["source"] for t in (repro_tests or tests)),
+            "tests": [{"test_fn": t["test_fn"], "check": t["check"], "values": t["values"],
+                       "native_dev": dev.get(t["test_fn"]), "native_release_like": rel.get(t["test_fn"])} for t in tests],
+            "values": (repro_tests or tests)[0]["values"] if (repro_tests or tests) else [],
+            "inputs": {"bytes": [v["bytes"] for v in ((repro_tests or tests)[0]["values"] if (repro_tests or tests) else [])],
+                       "decoded": [v["comment"] for v in ((repro_tests or tests)[0]["values"] if (repro_tests or tests) else [])]},
+            "how_to_replay": "./check %s --replay %s" % (prop, replay_file),
+        }
+        for desc in bad:
+            key = "kani:%s::%s" % (h["name"], desc)
+            mine = [t for t in repro_tests if t["check"] == desc or desc in t["check"] or t["check"] in desc]
+            reproduced = bool(mine) or (bool(repro_tests) and not any(t["check"] == desc for t in tests))
+            kn = next((k for k in known if k.get("prop", prop) == prop and re.fullmatch(k["key"], key)), None)
+            if not reproduced:
+                nonrepro.append({"key": key, "model": {"values": d["values"], "native": {t["test_fn"]: dev.get(t["test_fn"]) for t in tests},
+                                                       "note": "concrete playback did not fail natively" if tests else "no playback test was produced"}})
+                continue
+            os.makedirs(os.path.dirname(replay_file), exist_ok=True)
+            json.dump(d, open(replay_file, "w"), indent=1)
+            if kn:
+                known_hits.append({"key": key, "known": kn.get("text", ""), "replay_file": replay_file})
+            else:
+                violations.append({"key": key, "replay_file": replay_file, "replay": d})
+
+    passed = [e for e in results if e["status"] == "passed"]
+    by_name = {h["name"]: h for h in hs}
+    samples = [{"engine": "kani", "harness": e["name"], "instantiation": e["inst"], "asserts": by_name[e["name"]]["asserts"],
+                "bound": e["bound"], "checks": e["checks"], "covers": e["covers"], "verdict": "SUCCESSFUL", "time_s": e["time_s"]}
+               for e in passed[:: max(1, len(passed) // 6)][:6]]
+    cov = {
+        "harnesses_run": len(results),
+        "harnesses_passed": len(passed),
+        "checks_total": sum(e["checks"] for e in results),
+        "undecided": sum(1 for e in results if e["status"] == "undecided"),
+        "failed": sum(1 for e in results if e["status"] == "failed"),
+        "vacuous": sum(1 for e in results if e["status"] == "vacuous"),
+        "harness_results": results,
+        "functions_encoded": sorted({f for e in results for f in e["functions"]}),
+        "bounds": {
+            "tier": tier,
+            "instantiations": sorted({e["inst"] for e in results}),
+            "max_unwind": max([e["unwind"] or 0 for e in results]),
+            "per_harness_cap_s": cap,
+            "unwinding_assertions": "on",
+            "per_harness": {e["name"]: e["bound"] for e in results},
+        },
+        "samples": samples,
+        "solver_time_s": round(solver_s, 2),
+        "build_s": round(build_s, 1),
+        "wall_s": round(time.time() - t_start, 1),
+        "jobs": jobs,
+        "peak_cbmc_rss_gb": round(wd.peak_rss_gb, 2),
+        "watchdog_killed": wd.killed,
+        "tool": KANI_VERSION,
+        "log": logfile,
+    }
+    log("kani: %s tier=%s: %d/%d harnesses passed, %d undecided, %d failed, %d vacuous; %d checks; cbmc time %.1fs, wall %.1fs" % (
+        prop, tier, len(passed), len(results), cov["undecided"], cov["failed"], cov["vacuous"], cov["checks_total"], solver_s, cov["wall_s"]))
+    return {"coverage": cov, "violations": violations, "known_hits": known_hits, "nonrepro": nonrepro}
 
 
 def replay(d, log):
-    return 0
+    """Re-run the stored playback tests natively (dev profile). 1 = reproduces."""
+    srcs = d.get("playback_test_source", "")
+    fns = re.findall(r"fn (kani_concrete_playback_\w+)\(", srcs)
+    if not fns:
+        log("replay: no playback test in the replay file")
+        return 0
+    blocks = re.split(r"(?=/// Test generated for harness)", srcs)
+    tests = []
+    for b in blocks:
+        m = re.search(r"fn (kani_concrete_playback_\w+)\(", b)
+        if m:
+            c = re.search(r"/// Check for `(\w+)`: \"(.*)\"", b)
+            tests.append({"test_fn": m.group(1), "source": b.strip(), "check": c.group(2) if c else ""})
+    h = {"should_panic": d.get("should_panic", False)}
+    native = _native_playback(d["module"], tests, "dev", log)
+    rc = 0
+    for t in tests:
+        r = native.get(t["test_fn"], {})
+        log("replay %s: %s %s" % (t["test_fn"], r.get("outcome"), (r.get("message") or "").splitlines()[:3]))
+        if _reproduces(h, t, native):
+            rc = 1
+    if rc:
+        log("REPRODUCED property=%s harness=%s checks=%s" % (d.get("property"), d.get("harness"), d.get("failed_checks")))
+    else:
+        log("not reproduced")
+    return rc
+
+
+if __name__ == "__main__":
+    # small manual entry point: python3 kani_driver.py C17 quick [only]
+    a = sys.argv[1:]
+    if a and a[0] == "--list":
+        for h in harness_table(KANI_DIR):
+            print(h["prop"], h["tier"], h["name"], h["unwind"], h["cap"], "|", h["inst"])
+        sys.exit(0)
+    res = run(a[0], a[1] if len(a) > 1 else "quick", 0, [], print, only=a[2] if len(a) > 2 else None)
+    for e in res["coverage"]["harness_results"]:
+        print("%-55s %-10s %8s  checks=%-5s covers=%s %s" % (e["name"], e["status"], e["time_s"], e["checks"], e["covers"], e.get("note", "")))
+    print(json.dumps({k: res[k] for k in ("violations", "known_hits", "nonrepro")}, indent=1)[:4000])
